@@ -30,6 +30,14 @@ MANIFEST = dict(
 EXPLANATION = "finite configuration space enumerated completely; tolerance predicates proved with symbolic eps; hash digit counts by taint tracking"
 
 
+def _raises(f):
+    try:
+        f()
+    except Exception:
+        return True
+    return False
+
+
 def h_setters(vc):
     """both setters from every prior configuration, default-argument forms included"""
     g = C.G()
@@ -62,6 +70,16 @@ def h_setters(vc):
                 vc.ensure("set_eps(%s): get_eps() returns it" % arg, eps == arg)
             else:
                 vc.ensure("set_sig_figures(%s): get_sig_figures() returns it" % arg, sig == arg)
+        # tolerances that are not powers of ten: get_eps() returns exactly what was set, the digit count is round(-log10(eps)), comparisons use the value
+        for e in (4e-6, 3.5e-9, 2.5e-7, 2.0 ** -18, 7e-6, 1.5e-12):
+            for prior in (("set_eps", 1e-5), ("set_sig_figures", 12), ("set_eps", None)):
+                do(prior)
+                out = vc.call(g.set_eps, e)
+                vc.ensure("set_eps(%r) does not raise" % e, out.returned)
+                vc.ensure("set_eps(%r): get_eps() returns it and get_sig_figures() = round(-log10(eps))" % e, g.get_eps() == e and g.get_sig_figures() == round(-math.log10(e)))
+                a, b, c = g.Point(0.5, 1.25, -2.0), g.Point(0.5 + e / 4, 1.25, -2.0), g.Point(0.5, 1.25 - 5 * e, -2.0)
+                vc.ensure("set_eps(%r): Points e/4 apart compare equal, Points 5e apart unequal; Line(P, P + e/4) is rejected" % e,
+                          (a == b) and not (a == c) and _raises(lambda: g.Line(a, b)) and not _raises(lambda: g.Line(a, c)))
         for (e, k) in SETTINGS:
             vc.ensure("set_eps(%g) and set_sig_figures(%d) agree" % (e, k), abs(post[("set_eps", e)][0] - post[("set_sig_figures", k)][0]) <= 1e-9 * e
                       and post[("set_eps", e)][1] == post[("set_sig_figures", k)][1])
@@ -256,6 +274,8 @@ def bounded_configurations(seed):
 
     # catalogue objects: coordinates multiples of 1/8, frames with rational unit vectors (axis and Pythagorean)
     frames = [((1, 0, 0), (0, 1, 0), (0, 0, 1)), ((1 / 3, 2 / 3, 2 / 3), (2 / 3, 1 / 3, -2 / 3), (2 / 3, -2 / 3, 1 / 3)), ((2 / 7, 3 / 7, 6 / 7), (3 / 7, -6 / 7, 2 / 7), (6 / 7, 2 / 7, -3 / 7)),
+              # the same Pythagorean frames with the axes rotated: the first edge vector then has two largest components of equal size and opposite sign
+              ((2 / 3, 1 / 3, -2 / 3), (2 / 3, -2 / 3, 1 / 3), (1 / 3, 2 / 3, 2 / 3)), ((2 / 3, -2 / 3, 1 / 3), (1 / 3, 2 / 3, 2 / 3), (2 / 3, 1 / 3, -2 / 3)),
               # axis frames anchored at odd multiples of 1/8: the coordinates themselves are far from every rounding boundary, their products are not
               ((1, 0, 0), (0, 1, 0), (0, 0, 1), (0.125, 0.125, 1.0)), ((1, 0, 0), (0, 1, 0), (0, 0, 1), (0.125, -0.375, 0.625)), ((0, 1, 0), (0, 0, 1), (1, 0, 0), (0.375, 0.125, -0.125))]
 
@@ -270,6 +290,14 @@ def bounded_configurations(seed):
             return V(3 * e1[0] + d, 3 * e1[1], 3 * e1[2])
         if kind == "Line":
             return g.Line(pt(1, 2, 0, d), V(*[3 * c for c in e1]))
+        if kind == "Line(2 points)":
+            return g.Line(pt(1, 2, 0, d), pt(4, 2, 0))
+        if kind == "Line(direction perturbed)":
+            return g.Line(pt(1, 2, 0), V(3 * e1[0] - d, 3 * e1[1], 3 * e1[2] - d))
+        if kind == "HalfLine(direction perturbed)":
+            return g.HalfLine(pt(0, 0, 0), V(3 * e1[0] - d, 3 * e1[1], 3 * e1[2] - d))
+        if kind == "Plane(normal perturbed)":
+            return g.Plane(pt(1, 2, 0), V(e3[0] - d, e3[1], e3[2] - d))
         if kind == "Plane":
             return g.Plane(pt(1, 2, 0, d), V(*e3))
         if kind == "Segment":
@@ -284,7 +312,7 @@ def bounded_configurations(seed):
             return g.ConvexPolyhedron((sq(0, d), sq(1), side(0, 0, 3, 0), side(3, 0, 3, 2), side(3, 2, 0, 2), side(0, 2, 0, 0)))
         raise KeyError(kind)
 
-    kinds = ["Point", "Vector", "Line", "Plane", "Segment", "HalfLine", "ConvexPolygon", "ConvexPolyhedron"]
+    kinds = ["Point", "Vector", "Line", "Line(2 points)", "Line(direction perturbed)", "HalfLine(direction perturbed)", "Plane", "Plane(normal perturbed)", "Segment", "HalfLine", "ConvexPolygon", "ConvexPolyhedron"]
     settings = [10.0 ** -k for k in range(5, 13)]
     try:
         for fi, fr in enumerate(frames):
@@ -326,7 +354,7 @@ def bounded_configurations(seed):
                         fail(klass, "%ss differing by 4.5 eps compare equal" % kind, case)
                     if kind not in ("Point", "Vector"):
                         try:
-                            if kind in ("Line", "Plane", "Segment", "HalfLine"):
+                            if kind in ("Line", "Plane", "Segment", "HalfLine"):  # (the variants with a perturbed direction share the defining point exactly)
                                 pts = {"Line": lambda: [P(*[near.sv[i] for i in range(3)])], "Plane": lambda: [near.p], "Segment": lambda: [near.start_point, near.end_point],
                                        "HalfLine": lambda: [near.point]}[kind]()
                                 if not all(p in base for p in pts):
@@ -336,6 +364,9 @@ def bounded_configurations(seed):
                                 fail(klass, "eps/1000-perturbed objects do not intersect as coincident (got %s)" % type(inter).__name__, case)
                         except Exception as e:
                             fail(klass, "membership / intersection of eps/1000-perturbed objects raised %r" % (e,), case)
+                    want_sig = round(-math.log10(eps))
+                    if g.get_sig_figures() != want_sig or abs(g.get_eps() - 10.0 ** -want_sig) > 1e-9 * eps:
+                        fail(klass, "the queries (==, hash, in, intersection) changed the tolerance: get_eps() = %r, get_sig_figures() = %r after %s for eps = %g" % (g.get_eps(), g.get_sig_figures(), setter, eps), case)
                     if len(samples) < 2:
                         samples.append(case)
                 # restoring the default restores the default behaviour on the reused objects
